@@ -87,7 +87,7 @@ func runC16(cfg *vh.Config) error {
 	var pks []pk
 	var jobs []*Job
 	for i := 0; i < nPkg+nAwk; i++ {
-		if i >= 5 && i < 8 {
+		if i >= 5 && i < 10 {
 			forcedClash = i - 5 // one package of each known-finding class in every run
 		}
 		p := genPackage(rp, i >= nPkg)
@@ -152,6 +152,14 @@ func runC16(cfg *vh.Config) error {
 		if pks[i].mut != nil {
 			input["mutation"] = pks[i].why
 		}
+		if st := r.status("compile"); st != "err" && pks[i].mut == nil && (p.Clash == "case" || p.Clash == "badlist" || p.Clash == "enumdefault") {
+			// classes the compiler has to reject itself (protoc's enum value rule, /repo 4fb405b; list method shape, /repo cec4e3a;
+			// an enum default filter naming no option, /repo fb0e252)
+			res.Fail(vh.Failure{Case: caseNo, Stream: stream, Sig: "C16 package of class " + p.Clash + " -> accepted by the compiler (enum options differing only in case / list method without exactly one array of objects / enum default filter naming no option must be a compile error)",
+				Clause: "the compiled output can be turned into image, source API, client API, J5 JSON and OpenAPI without error or crash", Input: input, Got: r.firstBad()})
+		} else if st == "err" && (p.Clash == "case" || p.Clash == "badlist" || p.Clash == "enumdefault") {
+			res.Count(stream + ":class " + p.Clash + " rejected by the compiler (as it must be)")
+		}
 		if st := r.status("compile"); st == "err" {
 			// the generator made a package the compiler rejects: not a case (counted above)
 			if len(res.Notes) < 6 {
@@ -175,6 +183,8 @@ func runC16(cfg *vh.Config) error {
 				case p.Clash == "enumdefault" && strings.Contains(bad.Msg, "unknown enum value"):
 					sig = "C16 valid package with an enum field whose listRules.filtering.defaultFilters names no option -> stage " + bad.Name + " err: unknown enum value (buildListRequest)"
 				case p.Clash == "split" && (strings.Contains(bad.Msg, "is used by an enum and by a message or oneof") ||
+					strings.Contains(bad.Msg, "is used by both") || // root_schema.go since /repo 0e6056c
+
 					strings.Contains(bad.Msg, "interface conversion") && strings.Contains(bad.Msg, "EnumSchema")):
 					// since /repo 32db692 an error of the source stage; a revert brings the panic signature back (unlisted)
 					sig = "C16 valid package with object SplitHost_Kind next to SplitHost's inline enum kind -> stage " + bad.Name + " " + bad.Status + ": split-name collision (buildEnumFieldSchema)"
@@ -317,7 +327,7 @@ func runC16(cfg *vh.Config) error {
 	}
 	// compile stream: its own shards
 	cc := &vh.CasesFile{
-		Header: "From Coq Require Import String List NArith.\nFrom J5V.lib Require Import Outcome.\nFrom J5V.model Require Import Pipeline PipelineCompile PipelineValid PipelineCompileCorr.",
+		Header: "From Coq Require Import String List NArith.\nFrom J5V.lib Require Import Outcome.\nFrom J5V.model Require J5sWalk.\nFrom J5V.model Require Import Pipeline PipelineCompile PipelineValid PipelineCompileCorr.",
 		Type:   "c16compile",
 		Check:  "c16_compile_check",
 	}
@@ -364,7 +374,8 @@ func oracleClient(res *vh.Result, caseNo int, stream, prefix string, p *gPackage
 	}
 	entitySvc := ""
 	if p.Entity != nil {
-		entitySvc = p.Entity.Name + "QueryService"
+		// the query service the entity expands to; its exact casing (ToCamel of the snake form) is C17's matter
+		entitySvc = strings.ToLower(strings.ReplaceAll(p.Entity.Name, "_", "")) + "queryservice"
 	}
 	for _, d := range decl {
 		m, ok := got[d.Service+"/"+d.Name]
@@ -442,7 +453,7 @@ func oracleClient(res *vh.Result, caseNo int, stream, prefix string, p *gPackage
 		}
 	}
 	for k, m := range got {
-		if m.Service == entitySvc {
+		if strings.ToLower(strings.ReplaceAll(m.Service, "_", "")) == entitySvc {
 			continue
 		}
 		res.Fail(vh.Failure{Case: caseNo, Stream: stream, Sig: prefix + " -> undeclared method in client API", Clause: "the client API lists exactly the declared services and methods", Input: input, Got: k})
@@ -450,12 +461,24 @@ func oracleClient(res *vh.Result, caseNo int, stream, prefix string, p *gPackage
 	if p.Entity != nil {
 		found := false
 		for _, e := range r.Entities {
-			if strings.EqualFold(e, p.Entity.Name) {
+			if strings.EqualFold(strings.ReplaceAll(e, "_", ""), strings.ReplaceAll(p.Entity.Name, "_", "")) {
 				found = true
 			}
 		}
 		if !found {
 			res.Fail(vh.Failure{Case: caseNo, Stream: stream, Sig: prefix + " -> declared entity missing from client API", Clause: "entities", Input: input, Got: r.Entities})
+		}
+	}
+	if len(r.DanglingRefs) > 0 {
+		res.Fail(vh.Failure{Case: caseNo, Stream: stream, Sig: prefix + " -> OpenAPI document has a $ref that names no schema of the document", Clause: "every schema reachable from a method or entity is present", Input: input, Got: r.DanglingRefs})
+	}
+	// the schemas of sub-packages (request / response objects and what is declared in place inside them) are filed in
+	// the declared package too: the client API has no package for a sub-package of the declared one (other packages are
+	// the imported ones whose schemas are referenced: j5.list.v1, j5.messaging.v1, ...)
+	for _, cp := range r.ClientPkgs {
+		if strings.HasPrefix(cp, p.Pkg+".") {
+			res.Fail(vh.Failure{Case: caseNo, Stream: stream, Sig: prefix + " -> client API has a package for a sub-package of the declared one (schemas of request / response objects filed outside the declared package)", Clause: "every schema reachable from a method or entity is present", Input: input, Got: r.ClientPkgs, Want: []string{p.Pkg}})
+			break
 		}
 	}
 	have := map[string]bool{}
